@@ -231,6 +231,56 @@ def random_grammar(rng, max_nt=5, max_t=4, max_prods=9, max_rhs=3, allow_cyclic=
     return None
 
 
+def chain_family(depth=2, sizes=(3, 4), limit=None, rng=None):
+    """Nullable unit chains reached from several contexts with different followers
+    (the shape on which LALR lookahead propagation and merging matter):
+    C0: C1; C1: C2; ... Cd: 't' | EMPTY;  S: [pre] C_level post | ...  (+ optional wrapper G: C_l post)."""
+    chain = ["C%d" % i for i in range(depth + 1)]
+    alts = []
+    for pre in ("", "p", "q"):
+        for lvl in range(depth + 1):
+            for post in ("x", "y"):
+                alts.append([a for a in (pre, chain[lvl], post) if a])
+    # wrapper alternatives: S: pre G ; G: C_l post
+    wrappers = [("p", 0, "y"), ("q", 1, "x")]
+    combos = []
+    for k in sizes:
+        combos.extend(itertools.combinations(range(len(alts)), k))
+    if limit is not None and len(combos) > limit:
+        combos = (rng or random.Random(20260926)).sample(combos, limit)
+    for ci, combo in enumerate(combos):
+        rules = [("S", alts[i]) for i in combo]
+        w = wrappers[ci % 3] if ci % 3 < 2 else None
+        if w:
+            rules.append(("S", [w[0], "G"]))
+        for i in range(depth):
+            rules.append((chain[i], [chain[i + 1]]))
+        rules.append((chain[depth], ["t"]))
+        rules.append((chain[depth], []))
+        if w:
+            rules.append(("G", [chain[w[1]], w[2]]))
+        used = sorted({x for _, r in rules for x in r if x.islower()})
+        nts = [l for l, _ in rules]
+        if not productive_reachable(rules, list(dict.fromkeys(nts))):
+            continue
+        yield GSpec(rules, {t: ("str", t) for t in used})
+
+
+def fixed_stream(n, kind="nullable", seed0=20260925):
+    """A seed-INDEPENDENT pseudo-random stream (deterministic scope): small grammars
+    rich in empty productions, hidden recursion and (every third) lexical overlap."""
+    rng = random.Random(seed0)
+    out = []
+    tries = 0
+    while len(out) < n and tries < 20 * n:
+        tries += 1
+        s = random_grammar(rng, max_nt=3, max_t=3, max_prods=7, max_rhs=3, allow_cyclic=False,
+                           overlap=(tries % 3 == 0), p_empty=0.3)
+        if s is not None:
+            out.append(s)
+    return out
+
+
 def features(spec):
     nts = spec.nonterminals()
     nul = nullable_set(spec.rules)
